@@ -5,6 +5,7 @@ CONSTANTS
   MaxRef = 8
   MaxGen = 60
   CacheBadKey = FALSE
+  ExtBad = {"empty", "short", "long", "hex", "hexnl", "keylf", "keycrlf"}
 INIT TraceInit
 NEXT TraceNext
 ACTION_CONSTRAINT Report
